@@ -105,9 +105,14 @@ structure Outcome (σ : Type) where
   status401 : Bool
   store : σ
 
+/-- an authorized upload lands only for the comma form of the path: `CreateNeedleFromRequest` takes the fid from the last
+    ',' of the URL path (the '/' forms answer 400 after the check); DELETE goes through `parseURLPath` -/
+def writeLands (method : String) (path : List Char) : Bool :=
+  if method == "DELETE" then true else path.contains ','
+
 def handle {σ : Type} (cfg : Cfg) (method : String) (path qjwt auth : List Char) (t : Tok) (effect : σ → σ) (s : σ) : Outcome σ :=
   let (vid, fid) := parseURLPath path
-  if authorized (check cfg method vid fid (getJwt qjwt auth) t) then ⟨false, if isWrite method then effect s else s⟩
+  if authorized (check cfg method vid fid (getJwt qjwt auth) t) then ⟨false, if isWrite method && writeLands method path then effect s else s⟩
   else ⟨true, s⟩
 
 end SwV.Model.C34
